@@ -591,3 +591,11 @@ Definition check_binary_header (file : list N) (requested : option N) (want_voca
       else if order <? 2 then BinReject Format
       else if want_vocab && (has_vocab =? 0) then BinUndecided       (* rejected, but only after UpdateConfigFromBinary read the layout *)
       else BinUndecided.
+
+(* ---- BinaryFormat::LoadBinary: the size test that stands between a short file and mmap ------------------------------------- *)
+(* TotalHeaderSize(order) = ALIGN8(sizeof(Sanity) + sizeof(FixedWidthParameters) + 8 * order) *)
+Definition total_header_size (order : N) : N := (88 + 20 + 8 * order + 7) / 8 * 8.
+(* size = VocabularyT::Size + Search::Size, the bytes of the memory image after the header (computed by the layout code,
+   C04's subject; here a parameter).  The file is mapped over [0, header + size). *)
+Definition check_binary_size (file_size order size : N) : bin_verdict :=
+  if file_size <? total_header_size order + size then BinReject Format else BinUndecided.
